@@ -251,7 +251,7 @@ def finish(ctx: Ctx, mod, repo: str) -> int:
         v = ctx.violations[sig]
         slug = re.sub(r"[^A-Za-z0-9_.=-]+", "_", sig)[:120]
         h = hashlib.sha256(json.dumps(v["witnesses"][0], sort_keys=True).encode()).hexdigest()[:10]
-        d = os.path.join(VERIF_ROOT, "replays", ctx.prop)
+        d = os.path.join(os.environ.get("SPV_OUT") or VERIF_ROOT, "replays", ctx.prop)
         os.makedirs(d, exist_ok=True)
         path = os.path.join(d, f"{slug}-{h}.json")
         with open(path, "w") as f:
@@ -308,7 +308,7 @@ def write_evidence(ctx: Ctx, mod, matched, unlisted, state):
         "wall_s": round(time.time() - ctx.t0, 2),
         "violations": len(unlisted),
     }
-    d = os.path.join(VERIF_ROOT, "evidence")
+    d = os.path.join(os.environ.get("SPV_OUT") or VERIF_ROOT, "evidence")
     os.makedirs(d, exist_ok=True)
     tmp = os.path.join(d, f".{ctx.prop}.json.tmp")
     with open(tmp, "w") as f:
